@@ -264,6 +264,9 @@ func plan() []group {
 		{"asym-lengths", numAsymLengthCases(), runAsymLengths},
 		{"crypto-gen", 900 * s, runCryptoGen},
 		{"enc-truncate", numEncSeeds(), runEncTruncate},
+		{"enc-readers", numReaderDocs(), runEncReaders},
+		{"enc-encrypt-readers", len(encryptSizes), runEncryptReaders},
+		{"upper-readers", len(upperTexts), runUpperReaders},
 		{"enc-gen", 1500 * s, runEncGen},
 		{"enc-types", 500 * s, runEncTypes},
 		{"meta-gen", 1500 * s, runMetaGen},
@@ -287,7 +290,7 @@ func TestCheck(t *testing.T) {
 		"aescbcaead.Open.returned_ok", "aescbcaead.Open.returned_error", "aead.valid_mac_over_malformed_body",
 		"crypto.DecryptSymmetric.returned_ok", "crypto.DecryptSymmetric.returned_error", "crypto.DecryptPrivateKey.returned_ok", "crypto.DecryptPrivateKey.returned_error",
 		"crypto.VerifyPublicKey.returned_ok", "crypto.VerifyPublicKey.returned_error", "crypto.SignPrivateKey.returned_ok",
-		"enc.Decrypt.returned_ok", "enc.Decrypt.returned_error", "enc.decrypt.stream_ok", "enc.decrypt.stream_error", "enc.forged_header_accepted",
+		"enc.Decrypt.returned_ok", "enc.Decrypt.returned_error", "enc.decrypt.stream_ok", "enc.decrypt.stream_error", "enc.forged_header_accepted", "readers.source_shapes_run", "readers.short_first_read",
 		"enc.Manifest.Validate.returned_ok", "enc.Cipher.UnmarshalJSON.returned_ok", "enc.KeyAlgorithm.UnmarshalJSON.returned_error",
 		"metadata.DecodeMetadata.returned_ok", "metadata.DecodeMetadata.returned_error", "metadata.Duration.UnmarshalJSON.returned_ok",
 		"config.Decode.returned_ok", "config.Decode.returned_error", "config.Normalize.returned_error", "config.PrefixedBy.returned_ok",
